@@ -117,6 +117,7 @@ def run(rep):
         c11_chain.judge_tables(rep, table, ftab.result())
         (v1, r1), (v2, r2) = fseq.result(), floc.result()
     rep.lap('tlc runs')
+    rep.extra['tlc_wall_s'] = dict({name: round(res.wall, 1) for name, res in results.items()}, **{'tables': round(ftab.result().wall, 1), 'trace-seq': round(r1.wall, 1) if r1 else 0, 'trace-locate': round(r2.wall, 1) if r2 else 0})
 
     # ---- design-level verdicts
     for name, res in results.items():
